@@ -424,7 +424,8 @@ def read_ndjson(path):
 
 def stuck_position(r):
     """From a TraceNotStuck counterexample extract the value of l (1-based index of the rejected event)."""
-    ms = re.findall(r"/\\ l = (\d+)", r.trace_text)
+    i = r.out.find("Error: The behavior up to this point is")
+    ms = re.findall(r"/\\ l = (\d+)", r.out[i:] if i >= 0 else r.out)
     return int(ms[-1]) if ms else None
 
 
